@@ -48,6 +48,8 @@ FHist == {"direct", "batch", "second", "failwrite"}
 FBatchFail == {"direct", "batch", "failwrite"}
 FFaults == {"direct", "batch", "lose", "get"}
 FDirectNoop == {"direct", "noop"}
+FReject == {"direct", "batch", "reject"}
+FRejectNoop == {"direct", "batch", "reject", "noop"}
 FHistNoop == {"direct", "batch", "second", "failwrite", "noop"}
 FBatchFailNoop == {"direct", "batch", "failwrite", "noop"}
 FFaultsNoop == {"direct", "batch", "lose", "get", "noop"}
@@ -77,6 +79,7 @@ ViewLight == <<prune, IF prune THEN db ELSE {}, root, rc, contents, root2, conte
 \* fault runs: the database matters (what is readable), the ghost history does not
 ViewFaults == <<prune, db, root, rc, contents, root2, contents2,
                 bopen, cache, corder, broot, brc, bcontents, bops, lost>>
+ViewHist == <<prune, db, root, rc, contents, bopen, cache, corder, broot, brc, bcontents, bops, hist>>
 ViewFull == <<prune, db, root, rc, contents, root2, contents2,
               bopen, cache, corder, broot, brc, bcontents, bops, lost, past>>
 
